@@ -42,6 +42,9 @@ func init() {
 			{ID: "C16.R19", Text: "a state query reaches the endpoint that answers from the live state: routes and middlewares as registered (same rule as C10.R31)", Run: apiRoutesExact},
 			{ID: "C16.R20", Text: "what an endpoint or a scrape reports is read now, not remembered process-wide (same rule as C18.R9)", Run: globalsFrozen},
 			{ID: "C16.R21", Text: "a scrape asks the cluster itself and is not queued behind another: no coalescing or serialising layer in front of the client or the collector that is not a proven pass-through (same rules as C20.R19 and C20.R20)", Run: func(c *Ctx, id string) { decoratorsTransparent()(c, id); noNewLayers(c, id) }},
+			{ID: "C16.R22", Text: "the active-stream gauge counts the streams that are open: one opener per assigned vBucket (same rule as C15.R3)", Run: c15r3},
+			{ID: "C16.R24", Text: "a scrape observes and does not interfere: the stream getters behind the collector and the state endpoints change no state (same rule as C01.R19)", Run: streamGettersArePure},
+			{ID: "C16.R23", Text: "the active-stream gauge follows every re-open: the re-open loop makes its request or gives up loudly, it never skips silently (same rule as C12.R3)", Run: c12r3},
 			{ID: "C16.R5", Text: "active-stream count: set at open, decremented once per final end only (same rules as C12.R1, C12.R2)", Run: func(c *Ctx, id string) { c12r1(c, id); c12r2counter(c, id) }},
 		},
 	})
@@ -97,22 +100,35 @@ func c16r1(c *Ctx, id string) {
 		c.see(fn)
 		allInstrs(fn, func(in ssa.Instruction) {
 			cc := callOf(in)
-			if cc == nil || cc.StaticCallee() == nil || cc.StaticCallee().Name() != "MustNewConstMetric" {
+			if cc == nil || cc.StaticCallee() == nil {
+				return
+			}
+			descArg, valArg := ssa.Value(nil), ssa.Value(nil)
+			if cc.StaticCallee().Name() == "MustNewConstMetric" {
+				descArg, valArg = cc.Args[0], cc.Args[2]
+			} else if di, vi, ok := gaugeHelper(w, cc.StaticCallee()); ok && di < len(cc.Args) && vi < len(cc.Args) {
+				// `sendGauge(ch, desc, v)`: a helper of the module that emits its value parameter under its descriptor
+				// parameter, without labels
+				descArg, valArg = cc.Args[di], cc.Args[vi]
+			} else {
 				return
 			}
 			c.CallSites++
-			f := loadedField(cc.Args[0])
+			f := loadedField(descArg)
 			if f == nil {
-				c.Undecided(id, "metric@"+w.pos(in.Pos()), in.Pos(), "descriptor is not a collector field: %s", w.Origin(cc.Args[0]))
+				if _, isParam := unwrap(descArg).(*ssa.Parameter); isParam {
+					return // the emission inside the helper itself: judged at the helper's call sites
+				}
+				c.Undecided(id, "metric@"+w.pos(in.Pos()), in.Pos(), "descriptor is not a collector field: %s", w.Origin(descArg))
 				return
 			}
 			name := f.Name()
 			seen[name] = true
-			got := w.Origin(cc.Args[2])
+			got := w.Origin(valArg)
 			if wv, ok := want[name]; ok {
 				c.Check(got == wv, id, "gauge:"+name, in.Pos(), name+" ← "+got, name+" ← "+got+", expected "+wv)
 			}
-			if perVb[name] {
+			if perVb[name] && cc.StaticCallee().Name() == "MustNewConstMetric" {
 				labels := variadicArgs(cc.Args[3])
 				okL := len(labels) == 1 && w.Origin(labels[0]) == "call(strconv.Itoa)(param(vbID))"
 				c.Check(okL, id, "label:"+name, in.Pos(), "labelled with the ranged vbID", name+" is labelled with "+fmt.Sprint(len(labels))+" label(s), expected the ranged vbID")
@@ -525,4 +541,34 @@ func cc0Iface(cc *ssa.CallCommon) (*types.Interface, bool) {
 	}
 	i, ok := cc.Value.Type().Underlying().(*types.Interface)
 	return i, ok
+}
+
+// gaugeHelper: g is a module function whose body emits exactly one constant metric — descriptor and value are two of
+// its parameters, no labels — (`func sendGauge[T number](ch chan<- prometheus.Metric, desc *prometheus.Desc, v T)`):
+// the indices of those parameters.
+func gaugeHelper(w *World, g *ssa.Function) (int, int, bool) {
+	if g == nil || g.Blocks == nil || !w.inModule(g) {
+		return 0, 0, false
+	}
+	di, vi, n := -1, -1, 0
+	allInstrs(g, func(in ssa.Instruction) {
+		cc := callOf(in)
+		if cc == nil || cc.StaticCallee() == nil || cc.StaticCallee().Name() != "MustNewConstMetric" || len(cc.Args) < 4 {
+			return
+		}
+		n++
+		if len(variadicArgs(cc.Args[3])) != 0 {
+			n += 10
+			return
+		}
+		for i, p := range g.Params {
+			if unwrap(cc.Args[0]) == ssa.Value(p) {
+				di = i
+			}
+			if unwrap(cc.Args[2]) == ssa.Value(p) {
+				vi = i
+			}
+		}
+	})
+	return di, vi, n == 1 && di >= 0 && vi >= 0
 }
